@@ -1,4 +1,5 @@
 import Tmv.Lemmas.CommitVerify
+import Tmv.Lemmas.CommitDecode
 /-! # C07 — A commit is accepted only with enough distinct valid signatures for that block
 Property theorems only. `sigOK key signBytes sig` is an arbitrary predicate (nothing is assumed
 about ed25519); `SignBytes` is the record `CanonicalizeVote` builds. All theorems are for every
@@ -473,4 +474,412 @@ example : verifyCommit exSigOK exVals "A" exBid 5
     { exCommit with sigs := [⟨2, [1], 0, 6101⟩, ⟨3, [2], 0, 5202⟩, ⟨1, [], 0, 0⟩] } = .wrongSig 0 := by
   decide
 
+
+section Glue
+variable {σ : Type} (sigOK : Nat → SignBytes → σ → Bool) (sigLen : σ → Nat)
+
+/-! ## The decoding / ValidateBasic glue -/
+
+/-- A decoded validator set needs no well-formedness hypothesis: whatever `ValidatorSetFromProto`
+returns (for any wire message, any claimed total) is non-empty, has non-negative powers, addresses
+of address size, and a total that is the sum of its powers within `MaxTotalVotingPower`. -/
+theorem decoded_set_wellformed (w : WireValSet) (vs : List Validator) (h : valSetFromProto w = .ok vs) :
+    vs = w.validators ∧ vs ≠ [] ∧ NonNeg vs ∧ (∀ v ∈ vs, v.addr.length = addressSize) ∧
+    totalVotingPower vs = some (sumPower vs) ∧ sumPower vs ≤ maxTotalVotingPower ∧
+    ∀ t, valSetFromProto { w with total := t } = .ok vs :=
+  let ⟨a, b, c, d, e, f⟩ := valSetFromProto_ok h
+  ⟨a, b, c, d, e, f, fun _ => h⟩
+
+/-- Soundness for decoded input, with NO extra hypothesis: a set that came out of
+`ValidatorSetFromProto` and a commit that `VerifyCommit` accepts against it satisfy the soundness
+statement. (The commit needs no validation for soundness: see the table below for what
+`ValidateBasic` adds.) -/
+theorem decoded_full_sound (w : WireValSet) (vs : List Validator) (chainID : String) (blockID : BlockID)
+    (height : Int) (c : Commit σ) (hd : valSetFromProto w = .ok vs)
+    (h : verifyCommit sigOK vs chainID blockID height c = .ok) :
+    c.height = height ∧ c.blockID = blockID ∧ vs.length = c.sigs.length ∧
+    ∃ picks : List Nat, picks.Nodup ∧
+      (∀ i ∈ picks, GoodPick sigOK vs chainID c false (i, i)) ∧
+      3 * pickedPower vs picks > 2 * sumPower vs :=
+  let ⟨a, b, c', _, d⟩ := verifyCommit_sound sigOK vs chainID blockID height c (valSetFromProto_ok hd).2.2.1 h
+  ⟨a, b, c', d⟩
+
+theorem decoded_light_sound (w : WireValSet) (vs : List Validator) (chainID : String) (blockID : BlockID)
+    (height : Int) (c : Commit σ) (hd : valSetFromProto w = .ok vs)
+    (h : verifyCommitLight sigOK vs chainID blockID height c = .ok) :
+    c.height = height ∧ c.blockID = blockID ∧ vs.length = c.sigs.length ∧
+    ∃ picks : List Nat, picks.Nodup ∧
+      (∀ i ∈ picks, GoodPick sigOK vs chainID c false (i, i)) ∧
+      3 * pickedPower vs picks > 2 * sumPower vs :=
+  let ⟨a, b, c', _, d⟩ := light_sound sigOK vs chainID blockID height c (valSetFromProto_ok hd).2.2.1 h
+  ⟨a, b, c', d⟩
+
+theorem decoded_trusting_sound (w : WireValSet) (vs : List Validator) (chainID : String)
+    (c : Commit σ) (num den : Nat) (hd : valSetFromProto w = .ok vs)
+    (h : verifyCommitLightTrusting sigOK vs chainID c num den = .ok) :
+    0 < den ∧
+    ∃ picks : List (Nat × Nat), (picks.map Prod.fst).Nodup ∧
+      (∀ p ∈ picks, GoodPick sigOK vs chainID c true p) ∧
+      pickedPower vs (picks.map Prod.fst) * den > sumPower vs * num :=
+  let ⟨a, _, d⟩ := trusting_sound sigOK vs chainID c num den (valSetFromProto_ok hd).2.2.1 h
+  ⟨a, d⟩
+
+/-- What `CommitFromProto` guarantees: the commit is the wire commit, its block id is valid, height
+and round are non-negative, from height 1 on it names a non-nil block and has slots, every slot has
+a known flag, absent slots carry no address, no signature and the zero time, all other slots an
+address of address size and a signature of 1..MaxSignatureSize bytes. -/
+theorem decoded_commit_wellformed (w c : Commit σ) (h : commitFromProto sigLen w = .ok c) :
+    c = w ∧ CommitWF sigLen c ∧ commitValidateBasic sigLen c = none :=
+  commitFromProto_ok sigLen h
+
+/-- absent slots of a validated commit carry no address, no signature, no time -/
+theorem absent_slots_carry_nothing (c : Commit σ) (hb : commitValidateBasic sigLen c = none)
+    (h1 : 1 ≤ c.height) (s : CommitSig σ) (hs : s ∈ c.sigs) (ha : s.flag = flagAbsent) :
+    s.addr = [] ∧ sigLen s.sig = 0 ∧ s.ts = zeroTime := by
+  unfold commitValidateBasic at hb
+  have h0 : ¬ c.height < 0 := by omega
+  have h1' : c.height ≥ 1 := h1
+  by_cases hr : c.round < 0
+  · simp [h0, hr] at hb
+  simp only [h0, hr, if_false, h1', if_true] at hb
+  cases hz : c.blockID.isZero
+  · by_cases he : c.sigs.length = 0
+    · simp [hz, he] at hb
+    · simp only [hz, he, if_false, Bool.false_eq_true, Option.map_eq_none_iff] at hb
+      obtain ⟨_, hab, _⟩ := (firstSigErr_none sigLen).mp hb s hs
+      obtain ⟨a, b, c'⟩ := hab ha
+      exact ⟨a, c', b⟩
+  · simp [hz] at hb
+
+/-- After `CommitFromProto` (or `ValidateBasic` + a valid block id) none of the three entry points
+can hit one of the code's panics on the commit (unknown flag, invalid block id, index out of
+range): the only remaining panic is the set's total. -/
+theorem decoded_commit_never_panics (vs : List Validator) (chainID : String) (blockID : BlockID)
+    (height : Int) (c : Commit σ) (num den : Nat) (hwf : CommitWF sigLen c) :
+    ¬ (verifyCommit sigOK vs chainID blockID height c).isPanic ∧
+    ¬ (verifyCommitLight sigOK vs chainID blockID height c).isPanic ∧
+    ¬ (verifyCommitLightTrusting sigOK vs chainID c num den).isPanic := by
+  obtain ⟨hb, _, _, _, hs⟩ := hwf
+  have hk : ∀ s ∈ c.sigs, s.flag = flagAbsent ∨ s.flag = flagCommit ∨ s.flag = flagNil :=
+    fun s hs' => (hs s hs').1
+  have np : ∀ r : Res, (r = .size vs.length c.sigs.length ∨ r = .height ∨ r = .blockID ∨ r = .panicTotal ∨
+      r = .ok ∨ r = .zeroDen ∨ r = .fractionRange ∨ r = .overflow ∨ ∃ g n, r = .notEnough g n) → ¬ r.isPanic := by
+    intro r h hp
+    rcases h with h | h | h | h | h | h | h | h | ⟨g, n, h⟩ <;> subst h <;>
+      rcases hp with hp | hp | hp <;> cases hp
+  refine ⟨?_, ?_, ?_⟩
+  · unfold verifyCommit
+    split; · exact np _ (Or.inl rfl)
+    rename_i hlen
+    split; · exact np _ (by simp)
+    split; · exact np _ (by simp)
+    split; · exact np _ (by simp)
+    dsimp only
+    split
+    · rename_i r hr
+      exact fullLoop_no_panic sigOK vs chainID c c.sigs 0 0 r hk hb (by omega) hr
+    · split
+      · exact np _ (by simp)
+      · exact np _ (by simp)
+  · unfold verifyCommitLight
+    split; · exact np _ (Or.inl rfl)
+    rename_i hlen
+    split; · exact np _ (by simp)
+    split; · exact np _ (by simp)
+    split; · exact np _ (by simp)
+    dsimp only
+    split
+    · rename_i r hr
+      exact lightLoop_no_panic sigOK vs chainID c _ c.sigs 0 0 r hk hb (by omega) hr
+    · exact np _ (by simp)
+  · unfold verifyCommitLightTrusting
+    split; · exact np _ (by simp)
+    split; · exact np _ (by simp)
+    split; · exact np _ (by simp)
+    dsimp only
+    split; · exact np _ (by simp)
+    split
+    · rename_i r hr
+      exact trustLoop_no_panic sigOK vs chainID c _ c.sigs 0 [] 0 r hk hb hr
+    · exact np _ (by simp)
+
+/-- A commit without slots is rejected by every entry point (without `ValidateBasic`). -/
+theorem empty_commit_rejected (vs : List Validator) (chainID : String) (blockID : BlockID)
+    (height : Int) (c : Commit σ) (num den : Nat) (hnn : NonNeg vs) (he : c.sigs = []) :
+    verifyCommit sigOK vs chainID blockID height c ≠ .ok ∧
+    verifyCommitLight sigOK vs chainID blockID height c ≠ .ok ∧
+    verifyCommitLightTrusting sigOK vs chainID c num den ≠ .ok := by
+  obtain ⟨a, b⟩ := nil_absent_never_count sigOK vs chainID blockID height c hnn
+    (by intro i v s _ hs; simp [he] at hs)
+  exact ⟨a, b, nil_absent_unknown_never_count sigOK vs chainID c num den hnn
+    (by intro i s hs; simp [he] at hs)⟩
+
+/-- A commit whose block id fails `BlockID.ValidateBasic` (a hash of a wrong length) is never
+accepted by the verification functions themselves: they panic at the first for-block slot or
+find no power. -/
+theorem invalid_blockID_never_accepted (vs : List Validator) (chainID : String) (blockID : BlockID)
+    (height : Int) (c : Commit σ) (num den : Nat) (hnn : NonNeg vs)
+    (hb : c.blockID.validBasic = false) :
+    verifyCommit sigOK vs chainID blockID height c ≠ .ok ∧
+    verifyCommitLight sigOK vs chainID blockID height c ≠ .ok ∧
+    verifyCommitLightTrusting sigOK vs chainID c num den ≠ .ok := by
+  refine ⟨?_, ?_, ?_⟩
+  · intro h
+    unfold verifyCommit at h
+    split at h; · cases h
+    split at h; · cases h
+    split at h; · cases h
+    split at h; · cases h
+    rename_i T hT
+    obtain ⟨hTs, hTm⟩ := total_spec hnn hT
+    have h0 : 0 ≤ T := by rw [hTs]; exact sumPower_nonneg hnn
+    obtain ⟨hneed, hn0⟩ := needed_two_thirds h0 hTm
+    simp only [hneed] at h
+    split at h
+    · rename_i r hr; subst h
+      exact fullLoop_ne_error_ok sigOK vs chainID c _ _ _ hr
+    · rename_i got hgot
+      have := fullLoop_invalid_bid sigOK vs chainID c hb c.sigs 0 0 got hgot
+      subst this
+      split at h
+      · cases h
+      · omega
+  · intro h
+    unfold verifyCommitLight at h
+    split at h; · cases h
+    split at h; · cases h
+    split at h; · cases h
+    split at h; · cases h
+    dsimp only at h
+    split at h
+    · rename_i r hr; subst h
+      exact lightLoop_invalid_bid sigOK vs chainID c hb _ _ _ _ hr
+    · cases h
+  · intro h
+    unfold verifyCommitLightTrusting at h
+    split at h; · cases h
+    split at h; · cases h
+    split at h; · cases h
+    dsimp only at h
+    split at h; · cases h
+    split at h
+    · rename_i r hr; subst h
+      exact trustLoop_invalid_bid sigOK vs chainID c hb _ _ _ _ _ hr
+    · cases h
+
+end Glue
+
+/-! ### What only `ValidateBasic` rejects: a table of witnesses
+Each row is a concrete commit (three validators of power 10, 3, 1 with 20-byte addresses, toy
+signature scheme `exSigOK`) that `Commit.ValidateBasic` refuses and that the verification functions
+themselves accept, or handle differently from each other. Together with `empty_commit_rejected` and
+`invalid_blockID_never_accepted` (rejected by verification itself, for all inputs) and
+`decoded_commit_never_panics` this is the division of labour between the two layers. -/
+
+def tAddr (n : UInt8) : Bytes := List.replicate 20 n
+def tVals : List Validator := [⟨tAddr 1, 1, 10⟩, ⟨tAddr 2, 2, 3⟩, ⟨tAddr 3, 3, 1⟩]
+/-- signature byte length of the toy tokens: token 0 is the empty signature -/
+def tSigLen (s : Nat) : Nat := if s = 0 then 0 else 64
+/-- the well-formed commit: validator 0 for the block, validator 1 for nil, validator 2 absent;
+`third` replaces the last slot, `first` the first -/
+def tCommit (first third : CommitSig Nat) : Commit Nat :=
+  { height := 5, round := 0, blockID := exBid, sigs := [first, ⟨3, tAddr 2, 7, 5202⟩, third] }
+def tFirst : CommitSig Nat := ⟨2, tAddr 1, 7, 5101⟩
+def tAbsent : CommitSig Nat := ⟨1, [], zeroTime, 0⟩
+
+/-- the base row: valid for `ValidateBasic`, `CommitFromProto` and all three entry points -/
+theorem table_wellformed :
+    commitValidateBasic tSigLen (tCommit tFirst tAbsent) = none ∧
+    (commitFromProto tSigLen (tCommit tFirst tAbsent)).isOk = true ∧
+    verifyCommit exSigOK tVals "A" exBid 5 (tCommit tFirst tAbsent) = .ok ∧
+    verifyCommitLight exSigOK tVals "A" exBid 5 (tCommit tFirst tAbsent) = .ok ∧
+    verifyCommitLightTrusting exSigOK tVals "A" (tCommit tFirst tAbsent) 2 3 = .ok := by decide
+
+/-- an absent slot that carries a signature, an address or a timestamp: only `ValidateBasic`
+objects; all three entry points ignore the slot and accept -/
+theorem table_absent_slot_with_content :
+    (∀ third ∈ [(⟨1, [], zeroTime, 77⟩ : CommitSig Nat), ⟨1, tAddr 3, zeroTime, 0⟩, ⟨1, [], 7, 0⟩],
+      commitValidateBasic tSigLen (tCommit tFirst third) ≠ none ∧
+      verifyCommit exSigOK tVals "A" exBid 5 (tCommit tFirst third) = .ok ∧
+      verifyCommitLight exSigOK tVals "A" exBid 5 (tCommit tFirst third) = .ok ∧
+      verifyCommitLightTrusting exSigOK tVals "A" (tCommit tFirst third) 2 3 = .ok) ∧
+    commitValidateBasic tSigLen (tCommit tFirst ⟨1, [], zeroTime, 77⟩) = some (.sig .absentSig) ∧
+    commitValidateBasic tSigLen (tCommit tFirst ⟨1, tAddr 3, zeroTime, 0⟩) = some (.sig .absentAddr) ∧
+    commitValidateBasic tSigLen (tCommit tFirst ⟨1, [], 7, 0⟩) = some (.sig .absentTime) := by decide
+
+/-- an unknown BlockIDFlag: `ValidateBasic` rejects, `VerifyCommit` panics, the two light variants
+skip the slot and accept -/
+theorem table_unknown_flag :
+    commitValidateBasic tSigLen (tCommit tFirst ⟨4, tAddr 3, 7, 5103⟩) = some (.sig .unknownFlag) ∧
+    verifyCommit exSigOK tVals "A" exBid 5 (tCommit tFirst ⟨4, tAddr 3, 7, 5103⟩) = .panicFlag ∧
+    verifyCommitLight exSigOK tVals "A" exBid 5 (tCommit tFirst ⟨4, tAddr 3, 7, 5103⟩) = .ok ∧
+    verifyCommitLightTrusting exSigOK tVals "A" (tCommit tFirst ⟨4, tAddr 3, 7, 5103⟩) 2 3 = .ok := by decide
+
+/-- a signing slot whose address has the wrong size (or is simply not the validator's): the
+index-based variants never look at the address and accept; the trusting variant does not find the
+member and the slot does not count -/
+theorem table_wrong_address :
+    commitValidateBasic tSigLen (tCommit ⟨2, [1], 7, 5101⟩ tAbsent) = some (.sig .addrSize) ∧
+    verifyCommit exSigOK tVals "A" exBid 5 (tCommit ⟨2, [1], 7, 5101⟩ tAbsent) = .ok ∧
+    verifyCommitLight exSigOK tVals "A" exBid 5 (tCommit ⟨2, [1], 7, 5101⟩ tAbsent) = .ok ∧
+    verifyCommitLightTrusting exSigOK tVals "A" (tCommit ⟨2, [1], 7, 5101⟩ tAbsent) 2 3 = .notEnough 0 9 ∧
+    -- a well-sized address of ANOTHER validator: still accepted by position
+    verifyCommit exSigOK tVals "A" exBid 5 (tCommit ⟨2, tAddr 3, 7, 5101⟩ tAbsent) = .ok ∧
+    verifyCommitLightTrusting exSigOK tVals "A" (tCommit ⟨2, tAddr 3, 7, 5101⟩ tAbsent) 2 3 = .wrongSig 0 := by
+  decide
+
+/-- signature length (missing / above MaxSignatureSize) is checked by `ValidateBasic` only; the
+verification functions leave it to the signature scheme (`sigOK`) -/
+theorem table_signature_length :
+    commitValidateBasic (fun _ => 65) (tCommit tFirst tAbsent) = some (.sig .sigTooBig) ∧
+    commitValidateBasic (fun _ => 0) (tCommit tFirst tAbsent) = some (.sig .sigMissing) ∧
+    verifyCommit exSigOK tVals "A" exBid 5 (tCommit tFirst tAbsent) = .ok := by decide
+
+def tNeg : Commit Nat :=
+  { height := -1, round := -1, blockID := exBid,
+    sigs := [⟨2, tAddr 1, 7, 101⟩, ⟨3, tAddr 2, 7, 202⟩, tAbsent] }
+def tNilBlock : Commit Nat :=
+  { height := 5, round := 0, blockID := BlockID.zero,
+    sigs := [⟨2, tAddr 1, 7, 5201⟩, ⟨3, tAddr 2, 7, 5202⟩, tAbsent] }
+
+/-- negative height or round, and a nil block id from height 1 on: only `ValidateBasic` objects; a
+commit "for the nil block" whose slots are flagged for-the-block and signed over nil verifies -/
+theorem table_height_round_nilblock :
+    commitValidateBasic tSigLen tNeg = some .negHeight ∧
+    commitValidateBasic tSigLen { tNeg with height := 0 } = some .negRound ∧
+    verifyCommit exSigOK tVals "A" exBid (-1) tNeg = .ok ∧
+    verifyCommitLightTrusting exSigOK tVals "A" tNeg 2 3 = .ok ∧
+    commitValidateBasic tSigLen tNilBlock = some .nilBlock ∧
+    verifyCommit exSigOK tVals "A" BlockID.zero 5 tNilBlock = .ok ∧
+    verifyCommitLight exSigOK tVals "A" BlockID.zero 5 tNilBlock = .ok ∧
+    verifyCommitLightTrusting exSigOK tVals "A" tNilBlock 2 3 = .ok := by decide
+
+/-- a commit without slots fails `ValidateBasic` from height 1 on (and every entry point:
+`empty_commit_rejected`); a block id of the shape hash-empty / part-set-header-non-zero is valid,
+not nil and not complete -/
+theorem table_no_signatures_and_blockid_shapes :
+    commitValidateBasic tSigLen ({ height := 5, round := 0, blockID := exBid, sigs := [] } : Commit Nat)
+      = some .noSigs ∧
+    (let b : BlockID := ⟨[], 1, List.replicate 32 9⟩
+     b.validBasic = true ∧ b.isZero = false ∧ b.isComplete = false ∧ canonBlockID b = some b) ∧
+    exBid.isComplete = true ∧ BlockID.zero.isComplete = false ∧
+    (⟨[1, 2, 3], 1, []⟩ : BlockID).validBasic = false := by decide
+
+/-- `IsComplete` is strictly stronger than "valid and not nil" -/
+theorem isComplete_implies_valid_nonzero (b : BlockID) (h : b.isComplete = true) :
+    b.validBasic = true ∧ b.isZero = false := by
+  unfold BlockID.isComplete at h
+  simp only [Bool.and_eq_true, beq_iff_eq, decide_eq_true_eq] at h
+  obtain ⟨h1, _, h3⟩ := h
+  unfold BlockID.validBasic validHash BlockID.isZero
+  simp [h1, h3]
+
+
+section Relations
+variable {σ : Type} (sigOK : Nat → SignBytes → σ → Bool)
+
+/-- Relation light ⇒ trusting: on a set whose addresses are pairwise distinct, a commit whose
+for-block slots carry the address of the validator of their position and that `VerifyCommitLight`
+accepts is accepted by `VerifyCommitLightTrusting` with the same set at trust level 2/3. Both
+hypotheses are needed: `light_not_trusting_duplicate_address`, `table_wrong_address`. -/
+theorem light_implies_trusting_two_thirds (vs : List Validator) (chainID : String) (blockID : BlockID)
+    (height : Int) (c : Commit σ) (hnn : NonNeg vs) (hd : (vs.map (·.addr)).Nodup)
+    (hc : AddrConsistent vs c)
+    (h : verifyCommitLight sigOK vs chainID blockID height c = .ok) :
+    verifyCommitLightTrusting sigOK vs chainID c 2 3 = .ok := by
+  unfold verifyCommitLight at h
+  split at h; · cases h
+  split at h; · cases h
+  split at h; · cases h
+  split at h; · cases h
+  rename_i T hT
+  obtain ⟨hTs, hTm⟩ := total_spec hnn hT
+  have h0 : 0 ≤ T := by rw [hTs]; exact sumPower_nonneg hnn
+  obtain ⟨hneed, _⟩ := needed_two_thirds h0 hTm
+  have hb := maxTotal_bound
+  simp only [hneed] at h
+  split at h
+  · rename_i r hr; subst h
+    have e2 : toInt64 2 = 2 := by decide
+    have e3 : toInt64 3 = 3 := by decide
+    have hmax : T * 2 ≤ maxInt64 := by unfold maxInt64 at *; omega
+    have hno := safeMul_no_overflow h0 (by omega : (0:Int) ≤ 2) hmax
+    obtain ⟨hm, _⟩ := safeMul_spec h0 (by omega : (0:Int) ≤ 2) hno
+    obtain ⟨hdiv, _⟩ := div64_nonneg (by omega : 0 ≤ T * 2) hmax (by omega : (0:Int) < 3)
+    have ht := trustLoop_of_lightLoop sigOK vs chainID c hd hc (T * 2 / 3) c.sigs 0 [] 0
+      (by intro k; simp) (by simp) hr
+    unfold verifyCommitLightTrusting
+    have r1 : ¬ ((3 : Nat) = 0) := by decide
+    have r2 : ¬ (((2 : Nat) : Int) > maxInt64 ∨ ((3 : Nat) : Int) > maxInt64) := by decide
+    simp only [if_neg r1, if_neg r2, hT, e2, e3, hno, hm, hdiv, ht, Bool.false_eq_true, if_false]
+  · cases h
+
+/-- with duplicate addresses in the set the implication fails: the second of two validators sharing
+an address signs (10 of 11); the light variant accepts by position, the trusting variant resolves
+the address to the first validator and rejects the signature -/
+theorem light_not_trusting_duplicate_address :
+    let vs : List Validator := [⟨[9], 1, 1⟩, ⟨[9], 2, 10⟩]
+    let c : Commit Nat := { height := 5, round := 0, blockID := exBid, sigs := [⟨1, [], 0, 0⟩, ⟨2, [9], 0, 5102⟩] }
+    NonNeg vs ∧ AddrConsistent vs c ∧
+    verifyCommitLight exSigOK vs "A" exBid 5 c = .ok ∧
+    verifyCommitLightTrusting exSigOK vs "A" c 2 3 = .wrongSig 1 := by
+  refine ⟨?_, ?_, by decide, by decide⟩
+  · intro v hv; simp at hv; rcases hv with rfl | rfl <;> decide
+  · intro i v s hv hs hf
+    match i with
+    | 0 => simp at hv hs; subst hs; exact absurd hf (by decide)
+    | 1 => simp at hv hs; subst hv; subst hs; rfl
+    | n + 2 => simp at hv
+
+/-- a trusted set that shares no address with the commit's slots never accepts it, at any level -/
+theorem trusting_disjoint_set_rejects (tv : List Validator) (chainID : String) (c : Commit σ)
+    (num den : Nat) (hnn : NonNeg tv)
+    (hdis : ∀ s ∈ c.sigs, ∀ v ∈ tv, s.addr ≠ v.addr) :
+    verifyCommitLightTrusting sigOK tv chainID c num den ≠ .ok := by
+  apply nil_absent_unknown_never_count sigOK tv chainID c num den hnn
+  intro i s hs _ j v hv ha
+  exact absurd ha (hdis s (List.mem_of_getElem? hs) v (List.mem_of_getElem? hv))
+
+
+/-- The form the light client (C09) uses: if `VerifyCommitLightTrusting` accepts against the TRUSTED
+set `tv` at level `num/den`, then for every group `F` of positions of `tv` whose power is at most
+`num/den` of `tv`'s total (e.g. the faulty members, at most the trust level by assumption) some
+counted signer — a distinct trusted member with a qualifying signature in the commit — lies
+outside `F`. -/
+theorem trusting_counted_signer_outside (tv : List Validator) (chainID : String) (c : Commit σ)
+    (num den : Nat) (hnn : NonNeg tv)
+    (h : verifyCommitLightTrusting sigOK tv chainID c num den = .ok)
+    (F : List Nat) (hF : pickedPower tv F * den ≤ sumPower tv * num) :
+    ∃ p : Nat × Nat, p.1 ∉ F ∧ GoodPick sigOK tv chainID c true p := by
+  obtain ⟨_, _, picks, hnd, hg, hp⟩ := trusting_sound sigOK tv chainID c num den hnn h
+  apply Classical.byContradiction
+  intro hno
+  have hsub : ∀ j ∈ picks.map Prod.fst, j ∈ F := by
+    intro j hj
+    obtain ⟨p, hp', rfl⟩ := List.mem_map.mp hj
+    apply Classical.byContradiction
+    intro hn; exact hno ⟨p, hn, hg p hp'⟩
+  have hle := pickedPower_subset_le hnn _ F hnd hsub
+  have : pickedPower tv (picks.map Prod.fst) * (den : Int) ≤ pickedPower tv F * den :=
+    Int.mul_le_mul_of_nonneg_right hle (by omega)
+  omega
+
+/-- the same for the two-thirds variants: a group of positions holding at most two thirds of the
+power cannot contain all counted signers -/
+theorem light_counted_signer_outside (vs : List Validator) (chainID : String) (blockID : BlockID)
+    (height : Int) (c : Commit σ) (hnn : NonNeg vs)
+    (h : verifyCommitLight sigOK vs chainID blockID height c = .ok)
+    (F : List Nat) (hF : 3 * pickedPower vs F ≤ 2 * sumPower vs) :
+    ∃ i : Nat, i ∉ F ∧ GoodPick sigOK vs chainID c false (i, i) := by
+  obtain ⟨_, _, _, _, picks, hnd, hg, hp⟩ := light_sound sigOK vs chainID blockID height c hnn h
+  apply Classical.byContradiction
+  intro hno
+  have hsub : ∀ j ∈ picks, j ∈ F := by
+    intro j hj
+    apply Classical.byContradiction
+    intro hn; exact hno ⟨j, hn, hg j hj⟩
+  have hle := pickedPower_subset_le hnn _ F hnd hsub
+  omega
+
+end Relations
 end Tmv.Props.C07
